@@ -190,16 +190,14 @@ impl Commands {
     /// Removes the requested command.
     pub fn remove(&mut self, name: &str) -> bool {
         let command_name = match self.aliases.get(name) {
-            Some(ref value) => value,
-            None => name,
+            Some(value) => value.to_string(),
+            None => name.to_string(),
         };
 
-        match self.commands.remove(command_name) {
-            Some(command) => {
-                let aliases = command.aliases();
-                for alias in &aliases {
-                    self.aliases.remove(alias);
-                }
+        match self.commands.remove(&command_name) {
+            Some(_) => {
+                // remove only the aliases which point to the removed command
+                self.aliases.retain(|_, target| *target != command_name);
 
                 true
             }
